@@ -286,6 +286,8 @@ type GenCfg struct {
 	W map[string]int
 	// input forms weights: typed string json json_ietf
 	FormW []int
+	// EqualPrio: owners may share a priority (outside C01's quantifier; used by C02 only)
+	EqualPrio bool
 }
 
 var editKinds = []string{"create", "change", "grow", "shrink", "reprio", "delete", "orphan", "resubmit"}
@@ -354,6 +356,10 @@ func (g *Gen) freePrio(m *Model, except string, alsoUsed map[int32]bool) int32 {
 	var free []int32
 	for k := 0; k < 12; k++ {
 		p := int32(5 + 5*k)
+		if g.Cfg.EqualPrio && k < 3 {
+			free = append(free, p)
+			continue
+		}
 		if !used[p] && !alsoUsed[p] {
 			free = append(free, p)
 		}
